@@ -78,9 +78,11 @@ def setup(ctx):
     import gemdat.transitions as gt
 
     _mon.attach(gt, '_calculate_transition_events', optional=True, label='_calculate_transition_events')
-    _mon.attach(gt.Transitions, 'from_trajectory', label='Transitions.from_trajectory')
-    _mon.attach(gt.Transitions, 'states_prev', label='Transitions.states_prev')
-    _mon.attach(gt.Transitions, 'states_next', label='Transitions.states_next')
+    from .. import retain as _rt
+
+    _mon.attach(gt.Transitions, 'from_trajectory', label='Transitions.from_trajectory', retain=_rt.transitions)
+    _mon.attach(gt.Transitions, 'states_prev', label='Transitions.states_prev', retain=_rt.auto)
+    _mon.attach(gt.Transitions, 'states_next', label='Transitions.states_next', retain=_rt.auto)
 
 
 def teardown(ctx):
